@@ -10,6 +10,7 @@ Order of the element tuple / calibration dict is not part of the property and is
 """
 import itertools
 import math
+import os
 import sys
 
 import numpy as np
@@ -509,8 +510,10 @@ class C07(Prop):
     id = "C07"
     anchored = ["src/pewlib/laser.py", "src/pewlib/srr/srr.py", "src/pewlib/io/npz.py"]
     cases = {"quick": 120, "thorough": 2400}
-    rule = ("targeted: every successful add/remove/rename sequence up to length 3 over {A,B,C,D} (thorough: 5 names; length 4 "
-            "over 4 names) from Laser, SRRLaser and both after npz save/load, grouped into trees by first operation; generated: "
+    rule = ("targeted: every successful add/remove/rename sequence up to length 3 over {A,B,C,D} from Laser, SRRLaser and both "
+            "after npz save/load (16368 sequences each; thorough: over 5 names, 76695 each, plus all 578786 length-4 sequences "
+            "over 4 names from Laser and SRRLaser and a quarter of them, by prefix, after npz save/load), grouped into trees "
+            "by prefix; all get() variants are read at every node, a reduced set at the deepest leaves; generated: "
             "random successful sequences up to length 25 (adds, single/multi removes, renames incl. swaps, cycles, chains onto "
             "freed names, identity pairs, explicit get() calls, caller edits of the constructor arguments) with all get() variants "
             "observed after every step; non-trivial = at least one state-changing operation; distinct by canonical case hash")
@@ -566,13 +569,21 @@ class C07(Prop):
             yield from self.sampled_len4(a4)
 
     def sampled_len4(self, alphabet):
-        """length 4 over 4 names: every sequence of length <= 2 is a prefix; its depth-2 subtree is walked"""
+        """length 4 over 4 names: every sequence of length 2 is a prefix whose depth-2 subtree is walked (only the
+        length-4 leaves are run; shorter ones are covered by the length-3 trees).  Exhaustive from Laser and SRRLaser;
+        after an npz round trip (where every sequence costs a file load) every 4th prefix, the phase chosen by the seed."""
+        phase = int(os.environ.get("VERIF_SEED", "0")) % 4
         for kind in KINDS:
             start = default_start(kind)
             nl = len(start["ids"])
             present, did, cid = start_state(start)
+            stride = 4 if kind.endswith("_npz") else 1
+            j = 0
             for seq in walk([], present, did, cid, 2, alphabet, nl):
                 if len(seq) == 2:
+                    j += 1
+                    if j % stride != phase % stride:
+                        continue
                     yield {"mode": "tree", "kind": kind, "alphabet": alphabet, "start": start, "prefix": seq, "depth": 2,
                            "min_len": 4, "light_leaves": True}
 
